@@ -4,10 +4,17 @@ import vlib
 from vlib import oabfmt, scenario
 
 def full_case(rng, big=False):
-    nb = rng.randrange(1, 4)
+    nb = rng.choice([1, 2, 2, 3])
     sizes = [rng.choice([0, 1, 100, 5000, 32768, 40000] + ([131072, 131073, 140000, 262145] if big else [])) for _ in range(nb)]
-    oab, plain = oabfmt.build_full(rng, sizes)
+    # padding after LZX blocks that are followed by another block: 1 byte is the interesting case (and 0, and several)
+    oab, plain = oabfmt.build_full(rng, sizes, pad=[rng.choice([0, 1, 1, 2, 7]) for _ in sizes])
     return oab, plain, "full sizes=%s" % sizes
+
+def full_case_padfit(rng, bs):
+    """LZX blocks whose stream + padding leave exactly k (0, 1, 2) bytes unread by a decoder that fetches bs bytes at a time"""
+    sizes = [rng.choice([100, 5000, 32768]) for _ in range(rng.choice([2, 3]))]; k = rng.choice([1, 1, 2, 0])
+    oab, plain = oabfmt.build_full(rng, sizes, kinds=[1] * len(sizes), pad_fn=lambda i, n: ((k - n) % bs) or (bs if k else 0))
+    return oab, plain, "full padfit sizes=%s k=%d" % (sizes, k)
 
 def patch_sizes_at_boundary(rng):
     """(ssize, dsize) with round32k(ssize) + dsize just above 2^k while round32k(ssize + dsize) is not"""
